@@ -393,7 +393,7 @@ def run_property(pid, tier, njobs, only=None, keep=False):
                       f"oblig={r.get('obligations','-')} {('- ' + r.get('detail','')[:200]) if r['verdict'] not in ('unsat',) else ''}",
                       flush=True)
         # ---- classify
-        kf = [k for k in known_findings() if k.get("property") == pid]
+        kf = [k for k in known_findings() if k.get("property") == pid or pid in k.get("also_properties", [])]
         open_keys = {k["key"]: k for k in kf if k.get("status") == "open"}
         violations, unconfirmed, known_hit, broken, undecided = [], [], {}, [], []
         for j, r in results:
